@@ -43,14 +43,167 @@ def decodeText (hex : String) : Option (List Char) := do
   let s ← String.fromUTF8? (ByteArray.mk (bs.map UInt8.ofNat).toArray)
   pure s.toList
 
+
+/-! ### decoding of op words -/
+
+def unhex (w : String) : Option (List Char) := if w = "-" then some [] else decodeText w
+
+/-- cursor-style parsing over the words of an op line -/
+abbrev P := StateT (List String) Option
+
+def word : P String := fun ws => match ws with | w :: r => some (w, r) | [] => none
+def nat : P Nat := do let w ← word; match w.toNat? with | some n => pure n | none => failure
+def int : P Int := do let w ← word; match w.toInt? with | some n => pure n | none => failure
+def hexs : P (List Char) := do let w ← word; match unhex w with | some s => pure s | none => failure
+def flag : P Bool := do let w ← word; pure (w = "1")
+def expect (x : String) : P Unit := do let w ← word; if w = x then pure () else failure
+def times {α} (n : Nat) (p : P α) : P (List α) :=
+  match n with
+  | 0 => pure []
+  | k + 1 => do let a ← p; let r ← times k p; pure (a :: r)
+
+def kindOf (w : String) : Option FKind :=
+  match w.toList with
+  | 's' :: r => (String.ofList r).toNat?.map .scalar
+  | ['l'] => some .strList
+  | ['i'] => some .iface
+  | ['f'] => some .fnLists
+  | 't' :: r => (String.ofList r).toNat?.map .struct
+  | 'T' :: r => (String.ofList r).toNat?.map .structList
+  | _ => none
+
+def pKind : P FKind := do let w ← word; match kindOf w with | some k => pure k | none => failure
+
+/-- `<kind>:<valHex>:<resHex|!>` -/
+def oracleEntry (w : String) : Option (Nat × List Char × Option (List Char)) :=
+  match w.splitOn ":" with
+  | [k, v, r] => do
+    let k ← k.toNat?
+    let v ← unhex v
+    if r = "!" then pure (k, v, none) else do let r ← unhex r; pure (k, v, some r)
+  | _ => none
+
+def pOracle : P (List (Nat × List Char × Option (List Char))) := do
+  let n ← nat
+  times n (do let w ← word; match oracleEntry w with | some e => pure e | none => failure)
+
+def pField : P Field := do
+  let key ← hexs
+  let kind ← pKind
+  let d ← word
+  let dflt ← (if d = "!" then pure none else match unhex d with | some x => pure (some x) | none => failure)
+  let req ← flag
+  let rep ← flag
+  pure ⟨key, kind, dflt, req, rep⟩
+
+def pStruct : P StructDef := do
+  let hr ← flag
+  let n ← nat
+  let fs ← times n pField
+  pure ⟨fs, hr⟩
+
+def pSpec : P SectionSpec := do
+  let name ← hexs
+  let req ← flag
+  let kind ← pKind
+  pure ⟨name, req, kind⟩
+
+structure SchemaInfo where
+  S : Schema
+  zeros : List (List Char)
+  oracle : List (Nat × List Char × Option (List Char))
+
+def pSchema : P SchemaInfo := do
+  expect "K"; let nk ← nat; let zeros ← times nk hexs
+  expect "T"; let nt ← nat; let structs ← times nt pStruct
+  expect "P"; let np ← nat; let specs ← times np pSpec
+  expect "O"; let oracle ← pOracle
+  pure ⟨⟨structs, specs⟩, zeros, oracle⟩
+
+def decOf (tbl : List (Nat × List Char × Option (List Char))) : Dec := fun k v =>
+  match tbl.find? (fun e => e.1 = k ∧ e.2.1 = v) with
+  | some e => e.2.2
+  | none => none
+
+/-! ### canonical print of the typed configuration -/
+
+def ruleStr (r : List Fn × Fn) : String := fnsStr r.1 ++ ">" ++ fnStr r.2
+
+def leafStr (zeros : List (List Char)) : Leaf → Option String
+  | .scalar c => some ("s:" ++ esc c)
+  | .strs vs => if vs.isEmpty then none else some ("l:" ++ toString vs.length ++ ":" ++ ",".intercalate (vs.map esc))
+  | .istr s => some ("i:" ++ esc s)
+  | .ifns fs => some ("f:" ++ fnsStr fs)
+  | .ifn f => some ("F:" ++ fnStr f)
+  | .fnLists fss anns => if fss.isEmpty then none else some ("L:" ++ "|".intercalate (fss.map fnsStr) ++ "~" ++ "|".intercalate (anns.map annStr))
+  | .rules rs => if rs.isEmpty then none else some ("r:" ++ "|".intercalate (rs.map ruleStr))
+  | .count n => if n = 0 then none else some ("n:" ++ toString n)
+
+def insertSorted (x : String) : List String → List String
+  | [] => [x]
+  | y :: ys => if x ≤ y then x :: y :: ys else y :: insertSorted x ys
+
+def sortStrings (xs : List String) : List String := xs.foldl (fun acc x => insertSorted x acc) []
+
+def cerrStr : CErr → String
+  | .requiredSection => "requiredSection" | .unknownSection => "unknownSection" | .patch => "patch"
+  | .nokey => "nokey" | .unexpectedKey => "unexpectedKey" | .convert => "convert" | .ruleCtx => "ruleCtx"
+  | .requiredParam => "requiredParam" | .strlistType => "strlistType" | .unmatchedType => "unmatchedType"
+  | .unsupportedSection => "unsupportedSection" | .defaultDecode => "defaultDecode" | .fuel => "fuel" | .badSchema => "badSchema"
+
+def merrStr : MErr → String
+  | .circular => "circular" | .suffix => "suffix" | .scope => "scope" | .open => "open" | .isDir => "isDir"
+  | .perm => "perm" | .parse => "parse" | .includeGrammar => "includeGrammar" | .glob => "glob"
+  | .statErr => "statErr" | .fuel => "fuel"
+
+/-- scalar leaves equal to the Go zero value of a *string-typed* field are printed by neither side;
+the harness omits zero values, the model omits a scalar whose canonical text is a zero text. -/
+def storeStr (zeros : List (List Char)) (st : Store) : String :=
+  let entries := st.filterMap fun e =>
+    match e.2 with
+    | .scalar c => if zeros.contains c ∧ ¬ (String.ofList e.1).endsWith "#name" then none else some (String.ofList e.1 ++ "=s:" ++ esc c)
+    | l => (leafStr zeros l).map (String.ofList e.1 ++ "=" ++ ·)
+  ";".intercalate (sortStrings entries)
+
+def smapStr (m : SMap) : String :=
+  "".intercalate (sortStrings (m.map fun e => "S(" ++ esc e.1 ++ "){" ++ itemsStr e.2 ++ "}"))
+
+/-! ### ops -/
+
+def pFile : P (List Char × FileInfo) := do
+  let path ← hexs
+  let kind ← word
+  let perm ← nat
+  let content ← hexs
+  pure (path, ⟨kind = "d", perm, content⟩)
+
+def pGlob : P (List Char × Option (List (List Char))) := do
+  let pat ← hexs
+  let k ← int
+  if k < 0 then pure (pat, none) else do
+    let ms ← times k.toNat hexs
+    pure (pat, some ms)
+
+def fsOf (files : List (List Char × FileInfo)) (globs : List (List Char × Option (List (List Char)))) : FS :=
+  { stat := fun p => (files.find? (fun e => e.1 = p)).map (·.2)
+    glob := fun pat => match globs.find? (fun e => e.1 = pat) with
+      | some e => e.2
+      | none => some [['<', 'g', 'l', 'o', 'b', '-', 'm', 'i', 's', 's', '>']] }
+
+def rulesOfItems (items : List AItem) : List (List Fn × Fn) :=
+  items.filterMap fun | .rule fs o => some (fs, o) | _ => none
+
 structure St where
   K : Classes
+  schema : Option SchemaInfo
+
+def runP {α} (p : P α) (ws : List String) : Option α := (p.run ws).map (·.1)
 
 def handle (st : St) (line : String) : St × String :=
   match words line with
   | ["classes", a, b, c, d] =>
     match hexToNat? a, hexToNat? b, hexToNat? c, hexToNat? d with
-    | some a, some b, some c, some d => (⟨classesOfTable a b c d⟩, "classes ok")
+    | some a, some b, some c, some d => ({ st with K := classesOfTable a b c d }, "classes ok")
     | _, _, _, _ => (st, "bad-op")
   | ["p", hex] =>
     match decodeText hex with
@@ -63,16 +216,57 @@ def handle (st : St) (line : String) : St × String :=
     match parse st.K [] with
     | none => (st, "err")
     | some ss => (st, "ok " ++ secsStr ss)
-  | ["lex", hex] =>
-    match decodeText hex with
+  | "schema" :: rest =>
+    match runP pSchema rest with
+    | some si => ({ st with schema := some si }, "schema ok")
     | none => (st, "bad-op")
-    | some cs =>
-      match lex st.K cs with
-      | none => (st, "err")
-      | some ts => (st, "ok " ++ toString ts.length)
+  | "c" :: text :: rest =>
+    match st.schema, unhex text, runP pOracle rest with
+    | some si, some cs, some tbl =>
+      match parse st.K cs with
+      | none => (st, "err:parse")
+      | some ss =>
+        match configNew si.S (decOf (tbl ++ si.oracle)) 64 ss with
+        | .error (e, sec) => (st, "err:" ++ cerrStr e ++ (if sec.isEmpty then "" else "@" ++ String.ofList sec))
+        | .ok store => (st, "ok " ++ storeStr si.zeros store)
+    | _, _, _ => (st, "bad-op")
+  | ["path", a, b] =>
+    match unhex a, unhex b with
+    | some a, some b =>
+      (st, "clean=" ++ esc (cleanPath a) ++ " join=" ++ esc (joinPath a b) ++ " dir=" ++ esc (dirOf a)
+        ++ " abs=" ++ boolStr (isAbsPath a) ++ " sub=" ++ boolStr (ensureInSubDir a b))
+    | _, _ => (st, "bad-op")
+  | "m" :: entry :: rest =>
+    let p : P (List (List Char × FileInfo) × List (List Char × Option (List (List Char)))) := do
+      expect "F"; let n ← nat; let files ← times n pFile
+      expect "G"; let g ← nat; let globs ← times g pGlob
+      pure (files, globs)
+    match unhex entry, runP p rest with
+    | some entry, some (files, globs) =>
+      match merge st.K (fsOf files globs) (files.length + 2) entry with
+      | .error e => (st, "err:" ++ merrStr e)
+      | .ok (m, visited) =>
+        (st, "ok " ++ smapStr m ++ " entries=" ++ ",".intercalate (sortStrings (visited.map esc)))
+    | _, _ => (st, "bad-op")
+  | ["z", which, maxLen, text] =>
+    match maxLen.toNat?, unhex text with
+    | some maxLen, some cs =>
+      match parse st.K cs with
+      | none => (st, "err:parse")
+      | some ss =>
+        let rules := rulesOfItems (ss.flatMap (·.items))
+        let emit := if which = "r" then routingEmit else if which = "q" then dnsRequestEmit else dnsResponseEmit
+        match compileSize emit maxLen rules with
+        | .ok n => (st, "ok sets=" ++ toString n)
+        | .error .oversize => (st, "err:oversize")
+        | .error .unknownFunction => (st, "err:unknownFunction")
+        | .error .noParams => (st, "err:noParams")
+    | _, _ => (st, "bad-op")
+  | ["n", _] => (st, "done")
+  | ["n"] => (st, "done")
   | _ => (st, "bad-op")
 
 end C17Drv
 
 def main : IO Unit :=
-  lineLoopS (⟨⟨fun _ => false, fun _ => false, fun _ => false, fun _ => false⟩⟩ : C17Drv.St) C17Drv.handle
+  lineLoopS (⟨⟨fun _ => false, fun _ => false, fun _ => false, fun _ => false⟩, none⟩ : C17Drv.St) C17Drv.handle
